@@ -1198,6 +1198,20 @@ int main(int argc, char** argv) {
                             fill_signal(xs, seq[k].x, xmax);
                             if (wbuf.data() != waddr) s.note(pfx + "stft.history: window buffer moved (harness)");
                             const auto S = stft(xs, wbuf, ov, nfft, StftRange::Onesided);
+                            {
+                                // a rejected call right before the valid one: the same frames, the LAST one with a wrong number of bins
+                                // (whatever the call had accumulated before it noticed must not leak into the next call)
+                                auto Sb = S;
+                                if (!Sb.empty() && Sb.back().size() > 1) {
+                                    Sb.back() = arr_cmplx(Sb.back().size() - 1);
+                                    try {
+                                        (void)istft(Sb, wbuf, ov, nfft, StftRange::Onesided, methods[im]);
+                                        s.note(pfx + "stft.history: frame list with a short last frame accepted");
+                                    } catch (const std::exception&) {
+                                        s.note(pfx + "stft.history: rejected istft call before the valid one");
+                                    }
+                                }
+                            }
                             const arr_real xr = istft(S, wbuf, ov, nfft, StftRange::Onesided, methods[im]);
                             s.tick();
                             const std::string label = fmt("step %d of [%s]", (int)k + 1, sname.c_str());
